@@ -261,8 +261,24 @@ def harness_bin(analyze=False):
     return os.path.join(TARGET, "debug", "etk-vh-analyze" if analyze else "etk-vh")
 
 
+def harness_dir():
+    """The harness crate names /repo by absolute path; for a run against another checkout
+    (VERIF_REPO) a copy with rewritten paths is built instead."""
+    if REPO == "/repo":
+        return HARNESS
+    import shutil
+    dst = os.path.join(CACHE, "harness_alt")
+    if os.path.exists(dst):
+        shutil.rmtree(dst)
+    shutil.copytree(HARNESS, dst, ignore=shutil.ignore_patterns("target", "Cargo.lock"))
+    ct = os.path.join(dst, "Cargo.toml")
+    open(ct, "w").write(open(ct).read().replace('"/repo/', '"' + REPO.rstrip("/") + "/"))
+    return dst
+
+
 def build_harness(analyze=False, timeout=3000):
     os.makedirs(CACHE, exist_ok=True)
+    HARNESS = harness_dir()
     lock_src = os.path.join(REPO, "Cargo.lock")
     lock_dst = os.path.join(HARNESS, "Cargo.lock")
     if not os.path.exists(lock_dst) and os.path.exists(lock_src):
